@@ -270,3 +270,184 @@ func altsString(alts []*rAttrs) string {
 	sort.Strings(l)
 	return strings.Join(l, "  |OR|  ")
 }
+
+// ---------------------------------------------------------------- C03: decision process
+
+type cand struct {
+	rp  *ribPath
+	r   *annRoute
+	src *PeerCfg // nil: local
+}
+
+func (c cand) localPref() int64 {
+	if c.src != nil && !isIBGPKind(c.src.Kind) {
+		return 100 // LOCAL_PREF from eBGP neighbours is not used
+	}
+	if c.r.Spec.LocalPref < 0 {
+		return 100
+	}
+	return c.r.Spec.LocalPref
+}
+
+func (c cand) med() int64 {
+	if c.r.Spec.MED < 0 {
+		return 0
+	}
+	return c.r.Spec.MED
+}
+
+func (c cand) neighborAS() uint32 {
+	for _, s := range c.r.Spec.ASPath {
+		if s.Type == 3 || s.Type == 4 || len(s.ASNs) == 0 {
+			continue
+		}
+		return s.ASNs[0]
+	}
+	return 0
+}
+
+func (c cand) isIBGP() bool { return c.src != nil && isIBGPKind(c.src.Kind) }
+
+func keepMin(l []cand, f func(cand) int64) []cand {
+	if len(l) == 0 {
+		return l
+	}
+	m := f(l[0])
+	for _, c := range l[1:] {
+		if v := f(c); v < m {
+			m = v
+		}
+	}
+	var out []cand
+	for _, c := range l {
+		if f(c) == m {
+			out = append(out, c)
+		}
+	}
+	return out
+}
+
+// decide runs the documented decision process as selection by elimination over the candidate set
+// and returns the set of candidates any of which is an acceptable best (a singleton unless the
+// statement leaves the choice open), plus whether MED was comparable across all candidates, plus
+// the survivors of the steps before MED.
+func (w *simWorld) decide(cands []cand) (best []cand, medComparable bool, preMED []cand) {
+	g := w.sc.Global
+	l := cands
+	// highest LOCAL_PREF
+	l = keepMin(l, func(c cand) int64 { return -c.localPref() })
+	// locally originated
+	var loc []cand
+	for _, c := range l {
+		if c.src == nil {
+			loc = append(loc, c)
+		}
+	}
+	if len(loc) > 0 {
+		l = loc
+	}
+	// shortest AS_PATH
+	if !g.IgnoreASPathLen {
+		l = keepMin(l, func(c cand) int64 { return int64(asPathLen(c.r.Spec.ASPath)) })
+	}
+	// lowest ORIGIN
+	l = keepMin(l, func(c cand) int64 { return int64(c.r.Spec.Origin) })
+	preMED = l
+	// MED among comparable routes
+	medComparable = true
+	if !g.AlwaysCompareMed {
+		// the statement promises the full process only when MED is comparable across ALL
+		// candidates of the destination (not merely the survivors of the earlier steps): the
+		// implementation orders candidates pairwise, and a pairwise order with partially
+		// comparable MEDs is not total
+		allInternal := true
+		sameAS := true
+		for _, c := range cands {
+			if asPathLen(c.r.Spec.ASPath) != 0 {
+				allInternal = false
+			}
+			if c.neighborAS() == 0 || c.neighborAS() != cands[0].neighborAS() {
+				sameAS = false
+			}
+		}
+		allEq := true
+		for _, c := range cands {
+			if c.med() != cands[0].med() {
+				allEq = false
+			}
+		}
+		medComparable = allInternal || sameAS || allEq
+	}
+	if !medComparable {
+		return l, false, preMED
+	}
+	l = keepMin(l, func(c cand) int64 { return c.med() })
+	// eBGP over iBGP
+	hasE := false
+	for _, c := range l {
+		if !c.isIBGP() {
+			hasE = true
+		}
+	}
+	if hasE {
+		var e []cand
+		for _, c := range l {
+			if !c.isIBGP() {
+				e = append(e, c)
+			}
+		}
+		l = e
+	}
+	if len(l) <= 1 {
+		return l, true, preMED
+	}
+	if hasE && !g.ExternalCompareID {
+		// oldest eBGP route; the implementation records arrival at one-second granularity, the
+		// statement does not say: candidates within the same second as the oldest stay acceptable
+		oldest := l[0].r.At
+		for _, c := range l {
+			if c.r.At < oldest {
+				oldest = c.r.At
+			}
+		}
+		sec := int64(oldest.Seconds())
+		var o []cand
+		for _, c := range l {
+			if int64(c.r.At.Seconds()) == sec {
+				o = append(o, c)
+			}
+		}
+		l = o
+		if len(l) <= 1 {
+			return l, true, preMED
+		}
+		// same instant: lowest neighbour address (router-id is not used between eBGP routes, RFC 5004)
+		exact := true
+		for _, c := range l {
+			if c.r.At != l[0].r.At {
+				exact = false
+			}
+		}
+		if !exact {
+			return l, true, preMED // open: oldest by sub-second arrival, or tie broken by address
+		}
+		return keepMin(l, func(c cand) int64 { return addrKey(c.src.Addr) }), true, preMED
+	}
+	// lowest router-id (ORIGINATOR_ID may stand in for it: RFC 4456 - statement silent, keep open)
+	for _, c := range l {
+		if c.r.Spec.Originator != "" {
+			return l, true, preMED
+		}
+	}
+	l = keepMin(l, func(c cand) int64 { return addrKey(c.src.RouterID) })
+	if len(l) > 1 {
+		l = keepMin(l, func(c cand) int64 { return addrKey(c.src.Addr) })
+	}
+	return l, true, preMED
+}
+
+func addrKey(a string) int64 {
+	var b [4]int64
+	fmt.Sscanf(a, "%d.%d.%d.%d", &b[0], &b[1], &b[2], &b[3])
+	return b[0]<<24 | b[1]<<16 | b[2]<<8 | b[3]
+}
